@@ -10,6 +10,7 @@ import (
 	"fmt"
 	"io"
 	"log"
+	"math"
 	"os"
 	"os/exec"
 	"strconv"
@@ -316,7 +317,8 @@ func main() {
 	}
 	// negative proprietary sizes (finding C09-1, fixed by 697fad2): must be refused, and decoding must return
 	zeroSizeOK := true
-	for _, size := range []int{-1, -2, -300, 0, 3} {
+	// ... and sizes at the edge of Go's int (finding C09-2, fixed by 7492a62: plLen+1 overflowed)
+	for _, size := range []int{-1, -2, -300, 0, 3, math.MaxInt, math.MaxInt - 1, math.MaxInt - 4, 1 << 31, 1 << 62, math.MinInt} {
 		cmd := exec.Command(os.Args[0], "--child", "true", "128", strconv.Itoa(size))
 		var out bytes.Buffer
 		cmd.Stdout, cmd.Stderr = &out, &out
@@ -327,7 +329,11 @@ func main() {
 		select {
 		case err := <-done:
 			if err != nil {
-				what = "decoder crashed after registering a negative size: " + strings.TrimSpace(out.String())
+				o := strings.TrimSpace(out.String())
+				if len(o) > 300 {
+					o = o[:300]
+				}
+				what = fmt.Sprintf("decoder crashed after RegisterProprietaryMACCommand(size %d): %s", size, o)
 			} else if size < 0 && !strings.Contains(out.String(), "registered=false") {
 				what = "RegisterProprietaryMACCommand accepted a negative size: " + strings.TrimSpace(out.String())
 			}
@@ -336,7 +342,7 @@ func main() {
 			what = fmt.Sprintf("decoding a stream after RegisterProprietaryMACCommand(size %d) does not return (killed after 5 s)", size)
 		}
 		if what != "" {
-			if size >= 0 {
+			if size >= 0 && size <= 20 {
 				zeroSizeOK = false
 			}
 			key := fmt.Sprintf("negative-proprietary-size:%d", size)
